@@ -96,7 +96,8 @@ int   nsim_is_live (const void *p);
 void nsim_watch_set (int slot, const void *p);
 int  nsim_watch_first_writer (int slot);     /* tid, or -1 if nobody has stored to it since */
 void nsim_watch_clear (int slot);
-void nsim_watch_arm_on_store (int slot, const char *func);  /* the calling fibre's next atomic store made inside a function whose name contains func
+const void *nsim_watch_addr (int slot);    /* the watched word, or NULL */
+void nsim_watch_arm_on_store (int slot, const char *func);  /* the calling fibre's next atomic store of the value 1 made inside a function whose name contains func
                                                                starts watch `slot` on the stored-to word (that store itself is not counted) */
 
 /* ---- the thread-specific-data model, for client keys made by the harness (the simulated code reaches it through the seam) ---- */
